@@ -612,7 +612,7 @@ function cbuiltins.nelua_eq_(context, ltype, rtype)
         if i > 1 then
           defemitter:add(' && ')
         end
-        local fieldname, fieldtype = field.name, field.type
+        local fieldname, fieldtype = cdefs.quotename(field.name), field.type
         if fieldtype.is_composite then
           defemitter:add_builtin('nelua_eq_', fieldtype)
           defemitter:add('(a.', fieldname, ', b.', fieldname, ')')
